@@ -220,8 +220,7 @@ def main(tier, seed):
             # worker processes are forked before any thread exists
             pool = multiprocessing.get_context("fork").Pool(max(1, env.JOBS - env.JOBS // 2), initializer=_worker_init)
             wait_subs = start_subs(lab, subs)
-            # a run directory of its own: concurrent invocations of this check must not wipe each other's shards
-            d = coqrun.rundir("%s-%d" % (PROP, os.getpid()))
+            d = coqrun.rundir(PROP)
             try:
                 streams.sort(key=lambda nc: any(c["kind"] == "sub" for c in nc[1]))   # interpreter cases last
                 for name, cases in streams:
@@ -302,7 +301,7 @@ def replay(path):
         case = comp.from_json(rep["case"])
         case["id"] = "replay"
         res = comp.run_case(lab, case)
-        d = coqrun.rundir("%s_replay-%d" % (PROP, os.getpid()))
+        d = coqrun.rundir(PROP + "_replay")
         lit = comp.render(case, res)       # before comp.IMPORTS is read: rendering adds Definitions to it
         bad = coqrun.eval_cases(d, "replay", comp.IMPORTS, "cache_case", "cache_case_code", [lit])
         code = bad.get(0, 0)
